@@ -22,6 +22,7 @@ struct Tally {
     true_fresh: u64,
     rechecked: u64,
     sugg_off: u64,
+    final_bs: u64,
 }
 fn flush(t: &Tally, out: &mut Out) {
     out.count("evaluations", t.calls);
@@ -35,6 +36,7 @@ fn flush(t: &Tally, out: &mut Out) {
     out.count("comparisons_against_truly_new_context", t.true_fresh);
     out.count("mismatches_rechecked_with_truly_new_context", t.rechecked);
     out.count("comparisons_with_suggestions_off", t.sugg_off);
+    out.count("comparisons_whose_final_event_is_a_backspace", t.final_bs);
 }
 
 const STORE: &str = r#"{"onno":"অন্য","ami":"আমই","as":"আশ","kotha":"কোথা","sesh":"শেষ","e":"এ","ebong":"এবং","hothat":"হঠাৎ","\"as\"":"আঁশ","amar":"আমার"}"#;
@@ -61,12 +63,16 @@ struct Case {
     target: String,
     sel: u8,
     second: bool,
+    /// when Some: the final event is a backspace that deletes this extra character (typed with this selection byte) in the
+    /// warm context; the reference deletes an extra 'k' instead (what is deleted does not survive)
+    final_bs: Option<(char, u8)>,
 }
 
 fn case_json(c: &Case) -> Value {
     let script: String = c.script.iter().map(|&ch| if ch == '\u{8}' { '⌫' } else { ch }).collect();
     json!({"cfg": c.spec.to_json(), "prior_words": c.prior.iter().map(|(w, e)| { let how = ENDS[*e as usize]; json!([w, how]) }).collect::<Vec<_>>(),
            "edit_script": script, "surviving_text": c.target, "final_selection_byte": c.sel, "second_context_interleaved": c.second,
+           "final_event_is_backspace_deleting": c.final_bs.map(|(ch, b)| json!([ch.to_string(), b])),
            "user_files": {"phonetic-candidate-selection.json": STORE, "autocorrect.json": USER_AC}})
 }
 
@@ -158,7 +164,13 @@ fn gen_case(rng: &mut Rng) -> Case {
         script.push(c);
         cur.push(c);
     }
-    Case { spec, prior, script, target: t, sel: rng.below(3) as u8, second: rng.chance(1, 2) }
+    let final_bs = if rng.chance(1, 4) {
+        let ch = if rng.chance(2, 3) { *rng.pick(&[',', '.', ')', '\'', '"', ':', ';', '!', '?', '-']) } else { *rng.pick(&letters) };
+        Some((ch, rng.below(5) as u8))
+    } else {
+        None
+    };
+    Case { spec, prior, script, target: t, sel: rng.below(3) as u8, second: rng.chance(1, 2), final_bs }
 }
 
 /// Execute the case on the warm context; returns the rendering of the final event.
@@ -228,6 +240,11 @@ fn run_warm(warm: &Sess, other: Option<&Sess>, c: &Case, t: &mut Tally) -> Resul
         last = Some(warm.key(kc(c.target.chars().last().unwrap()), 0, c.sel)?);
         t.calls += 2;
     }
+    if let Some((ch, b)) = c.final_bs {
+        warm.key(kc(ch), 0, b)?;
+        last = Some(warm.bs(false)?);
+        t.calls += 2;
+    }
     // memo state before ending the word
     let st = warm.state();
     let word = split(&c.target, false).1;
@@ -243,6 +260,11 @@ fn run_direct(r: &Sess, c: &Case, t: &mut Tally) -> Result<Rs, Panic> {
     for (i, ch) in tc.iter().enumerate() {
         t.calls += 1;
         last = Some(r.key(kc(*ch), 0, if i + 1 == tc.len() { c.sel } else { 0 })?);
+    }
+    if c.final_bs.is_some() {
+        r.key(kc('k'), 0, 0)?;
+        last = Some(r.bs(false)?);
+        t.calls += 2;
     }
     let rs = Rs::of(last.as_ref().unwrap());
     r.finish()?;
@@ -320,6 +342,9 @@ fn judge(warm: &Sess, other: Option<&Sess>, reference: &Sess, c: &Case, out: &mu
             if !c.spec.has(O_PSUGG) {
                 t.sugg_off += 1;
             }
+            if c.final_bs.is_some() {
+                t.final_bs += 1;
+            }
             out.distinct(fnv_str(&[&c.target, &c.spec.opts.to_string(), &c.sel.to_string(), &c.script.iter().collect::<String>()]));
             if out.want_sample() && t.comparisons % 1777 == 29 {
                 out.sample(json!({"case": case_json(c), "rendering": a.to_json()}));
@@ -382,6 +407,7 @@ fn parse_case(case: &Value) -> Option<Case> {
         target: case.get("surviving_text").and_then(|s| s.as_str()).unwrap_or("").to_string(),
         sel: case.get("final_selection_byte").and_then(|s| s.as_u64()).unwrap_or(0) as u8,
         second: case.get("second_context_interleaved").and_then(|s| s.as_bool()).unwrap_or(false),
+        final_bs: case.get("final_event_is_backspace_deleting").and_then(|f| f.as_array()).and_then(|a| Some((a.first()?.as_str()?.chars().next()?, a.get(1)?.as_u64()? as u8))),
     })
 }
 
@@ -393,7 +419,7 @@ impl Prop for C05 {
         "random cases: phonetic configuration (suggestions on 5/6; English, smart quotes, ANSI free); a pre-populated learned-selection store and user auto-correct file held fixed; \
          0-6 prior words drawn from a vocabulary built to collide with the target (its prefixes, extensions with suffixes, case variants, other wrappings, the 30 base words) each ended by finish / ctrl-backspace / commit of the pre-selected index; \
          the target (wrapped/unwrapped known words and random strings) reached through an insert/backspace edit script with detours; a second context over another user directory with other options poked between events in half of the cases. \
-         Reference: a context whose method object is re-created (update_engine to another layout and back) before each comparison types the target directly with the same final selection byte; \
+         In a quarter of the cases the final event is a backspace that deletes an extra character (a punctuation key with a selection byte, or a letter) in the warm context and an extra k in the reference. Reference: a context whose method object is re-created (update_engine to another layout and back) before each comparison types the target directly with the same final selection byte; \
          every mismatch is re-checked from scratch (all earlier cases of that warm context are replayed on a new context, then the case is judged against a truly new context) before it is reported, and one case in 10 (quick) / 6 (thorough) uses truly new contexts directly. \
          distinct_nontrivial = distinct (target, options, selection byte, edit script) tuples compared."
             .into()
@@ -412,7 +438,7 @@ impl Prop for C05 {
         let n = tier.pick(8_000, 150_000);
         vec![
             ("comparisons", n), ("comparisons_with_warm_memo_for_target", n / 4), ("comparisons_with_4_or_more_candidates", n / 5), ("comparisons_after_detours", n / 5),
-            ("comparisons_with_second_context_interleaved", n / 4), ("comparisons_with_learned_preselection", n / 40), ("comparisons_against_truly_new_context", n / 20),
+            ("comparisons_with_second_context_interleaved", n / 4), ("comparisons_with_learned_preselection", n / 40), ("comparisons_whose_final_event_is_a_backspace", n / 8), ("comparisons_against_truly_new_context", n / 20),
         ]
     }
     fn run_shard(&self, env: &Env, out: &mut Out) {
